@@ -96,10 +96,22 @@ def run_sequence(ctx, rng, n, k0, nops):
     next_new = [k0]
     problems, ops_terms, flags, desc = [], [], [], []
 
+    lookalike, ident_of, keep = [0], {}, []
+
     def fref_arg(nm, force_name=None):
         """(python arg, coq term) for an existing frame, by object when available (random)"""
-        if nm in ref.objs and (force_name is None) and rng.random() < 0.5:
-            return ref.objs[nm], pipes.coq_fref(code[nm], True)
+        if nm in ref.objs and (force_name is None):
+            v = rng.random()
+            if v < 0.4:
+                return ref.objs[nm], pipes.coq_fref(code[nm], True)
+            if v < 0.55:
+                # a different frame object that merely carries the same name: frames are found by name, and the object registered
+                # under that name must stay the pipeline's own
+                alike = pipes.make_frame(n, nm, True)
+                lookalike[0] += 1
+                ident_of[id(alike)] = 900 + lookalike[0]
+                keep.append(alike)
+                return alike, pipes.coq_fref(code[nm], True, ident=900 + lookalike[0])
         return nm, pipes.coq_fref(code[nm], False)
 
     for _ in range(nops):
@@ -252,8 +264,12 @@ def run_sequence(ctx, rng, n, k0, nops):
             break
         # ---- observation for Coq
         nm_codes = [code[x] for x in w.available_frames]
-        attrs = glist([f"({gz(code[x])}, " + (f"Some {gz(100 + code[x])}" if (getattr(w, x, None) is not None and not isinstance(getattr(w, x), str)) else "None") + ")"
-                       for x in w.available_frames])
+        def ident(x):
+            o = getattr(w, x, None)
+            if o is None or isinstance(o, str):
+                return "None"
+            return f"Some {gz(ident_of.get(id(o), 100 + code[x]))}"
+        attrs = glist([f"({gz(code[x])}, {ident(x)})" for x in w.available_frames])
         bb = bbox_of(w)
         cbox = "(Some None)" if bb is None else "(Some (Some " + glist([f"({gz(a)}, {gz(b)})" for a, b in bb]) + "))"
         cfwd = f"(RVal {gzl(fwd[1])})" if fwd[0] == "val" else f"(RErr {fwd[1]})"
